@@ -222,6 +222,12 @@ class Model:
                 if full.startswith('../') or full == '..' or full.startswith('/'):
                     v.zones.append('entry-outside-tree')
                     continue
+                if os.path.normpath(e['path']) != e['path'] or '\x00' in e['path']:
+                    # trailing slash, ./ prefix, doubled slashes, embedded NUL: the statement is about
+                    # path components, not about non-normalised spellings of them
+                    v.zones.append('non-normalised-entry-path')
+                    v.kind = 'DONTCARE'
+                    continue
                 if not psw(full, subpath):
                     continue
                 if full not in out:
